@@ -481,3 +481,272 @@ class Als(Contract):
     def effect(self, ex, state, A, inst, line):
         from vt.e1.contract import mk_fresh_tt
         return mk_fresh_tt(state, 'als_result')
+
+
+# ----------------------------------------------------------------------------------------------------------------------
+# MALS (two-site)
+
+@register
+class MicroMatrixMals(_Helper):
+    name, func = 'fn:__construct_micro_matrix_mals', '__construct_micro_matrix_mals'
+
+    def modifies(self, S):
+        return [], []
+
+    def setup(self, ex, state, inst):
+        op, sol, i = self.base(ex, state)
+        d = zi(op.order)
+        state.assume(i < d - 1)
+        return {'i': i, 'stack_left_op': mk_stack(state, 'sl', d, 3, ex.ctx.mark0), 'stack_right_op': mk_stack(state, 'sr', d, 3, ex.ctx.mark0), 'operator': op, 'solution': sol}
+
+    def requires(self, S):
+        l, r, op, sol, i = S.a['stack_left_op'], S.a['stack_right_op'], S.a['operator'], S.a['solution'], zi(S.a['i'])
+        d = zi(op.order)
+        yield 'i-in-range', z3.And(i >= 0, i < d - 1, zi(l.length) == d, zi(r.length) == d)
+        yield 'environments-defined', z3.And(Lop(l, op, sol, i), Rop(r, op, sol, i + 1))
+
+    def _n(self, S, dims):
+        op, sol, i = S.o['operator'], S.o['solution'], zi(S.o['i'])
+        return lst_get(sol.ranks, i) * lst_get(dims, i) * lst_get(dims, i + 1) * lst_get(sol.ranks, i + 2)
+
+    def ensures(self, S, res):
+        op = S.o['operator']
+        ok = isinstance(res, SArr) and len(res.shape) == 2
+        yield 'returns-matrix', ok
+        if ok:
+            yield 'shape', z3.And(res.shape[0] == self._n(S, op.row_dims), res.shape[1] == self._n(S, op.col_dims))
+            yield 'fresh', res.buf >= S.mark0
+
+    def canary(self, S, res):
+        return res.shape[0] == res.shape[1] + 1
+
+    def effect(self, ex, state, A, inst, line):
+        return SArr([fresh('mm0'), fresh('mm1')], fresh('mmcx', 'bool'), state.alloc(), True)
+
+
+@register
+class MicroRhsMals(_Helper):
+    name, func = 'fn:__construct_micro_rhs_mals', '__construct_micro_rhs_mals'
+
+    def modifies(self, S):
+        return [], []
+
+    def setup(self, ex, state, inst):
+        op, sol, i = self.base(ex, state)
+        d = zi(op.order)
+        state.assume(i < d - 1)
+        rhs = mk_tt(state, 'right_hand_side', ex.ctx.mark0, order=op.order)
+        state.assume(z3.And(same_ints(rhs.row_dims, op.row_dims, d), FA(0, d, lambda j: lst_get(rhs.col_dims, j) == 1)))
+        return {'i': i, 'stack_left_rhs': mk_stack(state, 'sl', d, 2, ex.ctx.mark0), 'stack_right_rhs': mk_stack(state, 'sr', d, 2, ex.ctx.mark0), 'right_hand_side': rhs, 'solution': sol}
+
+    def requires(self, S):
+        l, r, rhs, sol, i = S.a['stack_left_rhs'], S.a['stack_right_rhs'], S.a['right_hand_side'], S.a['solution'], zi(S.a['i'])
+        d = zi(rhs.order)
+        yield 'i-in-range', z3.And(i >= 0, i < d - 1, zi(l.length) == d, zi(r.length) == d)
+        yield 'environments-defined', z3.And(Lrhs(l, rhs, sol, i), Rrhs(r, rhs, sol, i + 1))
+
+    def ensures(self, S, res):
+        rhs, sol, i = S.o['right_hand_side'], S.o['solution'], zi(S.o['i'])
+        ok = isinstance(res, SArr) and len(res.shape) == 2
+        yield 'returns-matrix', ok
+        if ok:
+            yield 'shape', z3.And(res.shape[0] == lst_get(sol.ranks, i) * lst_get(rhs.row_dims, i) * lst_get(rhs.row_dims, i + 1) * lst_get(sol.ranks, i + 2), res.shape[1] == 1)
+            yield 'fresh', res.buf >= S.mark0
+
+    def canary(self, S, res):
+        return res.shape[1] == 2
+
+    def effect(self, ex, state, A, inst, line):
+        return SArr([fresh('mr0'), fresh('mr1')], fresh('mrcx', 'bool'), state.alloc(), True)
+
+
+def cap_ok(rank, mr):
+    if isinstance(mr, SMaxRank):
+        return z3.Or(mr.is_inf, zi(rank) <= mr.val)
+    if isinstance(mr, SInf):
+        return z3.BoolVal(True)
+    return zi(rank) <= zi(mr)
+
+
+@register
+class UpdateCoreMals(_Helper):
+    name, func = 'fn:__update_core_mals', '__update_core_mals'
+
+    def instances(self):
+        return [{'solver': s, 'direction': dr} for s in ('solve', 'lu') for dr in ('forward', 'backward')]
+
+    def call_inst(self, A):
+        if not isinstance(A['direction'], str):
+            raise Unsupported('symbolic direction')
+        return {'direction': A['direction'], 'solver': A['solver'] if isinstance(A['solver'], str) else 'solve'}
+
+    def modifies(self, S):
+        sol = S.o['solution']
+        return [sol.cores.ref, sol.ranks.ref], []
+
+    def mutated(self, A):
+        return [A['solution'].cores, A['solution'].ranks]
+
+    def setup(self, ex, state, inst):
+        op, sol, i = self.base(ex, state)
+        state.assume(i < zi(op.order) - 1)
+        N = lst_get(sol.ranks, i) * lst_get(sol.row_dims, i) * lst_get(sol.row_dims, i + 1) * lst_get(sol.ranks, i + 2)
+        mo = SArr([N, N], fresh('mocx', 'bool'), fresh('mobuf'), True)
+        mr_ = SArr([N, 1], fresh('mrcx', 'bool'), fresh('mrbuf'), True)
+        state.assume(z3.And(mo.buf >= ex.ctx.mark0, mr_.buf >= ex.ctx.mark0))
+        cap = SMaxRank('max_rank')
+        state.assume(z3.Or(cap.is_inf, cap.val >= 1))
+        return {'i': i, 'micro_op': mo, 'micro_rhs': mr_, 'solution': sol, 'solver': inst['solver'], 'threshold': SNum('threshold', nonneg=z3.BoolVal(True)),
+                'max_rank': cap, 'direction': inst['direction']}
+
+    def requires(self, S):
+        sol, i, mo, mr_ = S.a['solution'], zi(S.a['i']), S.a['micro_op'], S.a['micro_rhs']
+        d = zi(sol.order)
+        N = lst_get(sol.ranks, i) * lst_get(sol.row_dims, i) * lst_get(sol.row_dims, i + 1) * lst_get(sol.ranks, i + 2)
+        yield 'i-in-range', z3.And(i >= 0, i < d - 1)
+        yield 'micro-system-shape', z3.And(mo.shape[0] == N, mo.shape[1] == N, mr_.shape[0] == N, mr_.shape[1] == 1)
+        yield 'micro-system-fresh', z3.And(mo.buf >= S.state.ctx.mark0, mr_.buf >= S.state.ctx.mark0)
+
+    def ensures(self, S, res):
+        sol, sol0, i = S.a['solution'], S.o['solution'], zi(S.o['i'])
+        d = zi(sol0.order)
+        fwd = S.inst['direction'] == 'forward'
+        yield 'lists-kept', z3.And(sol.cores.ref == sol0.cores.ref, sol.ranks.ref == sol0.ranks.ref, zi(sol.cores.length) == d, zi(sol.ranks.length) == d + 1)
+        yield 'one-rank-updated', FA(0, d + 1, lambda j: z3.Implies(j != i + 1, lst_get(sol.ranks, j) == lst_get(sol0.ranks, j)))
+        yield 'new-rank', z3.And(lst_get(sol.ranks, i + 1) >= 1, cap_ok(lst_get(sol.ranks, i + 1), S.o['max_rank']))
+        if fwd:
+            yield 'core-i', z3.And(sol_core_ok(sol, i), lst_get(sol.cores, i).buf >= S.mark0, lst_get(sol.cores, i).flags['lorth'])
+            touched = lambda j: j == i  # noqa
+        else:
+            yield 'core-i+1', z3.And(sol_core_ok(sol, i + 1), lst_get(sol.cores, i + 1).buf >= S.mark0, lst_get(sol.cores, i + 1).flags['rorth'])
+            yield 'core-0-when-i==0', z3.Implies(i == 0, z3.And(sol_core_ok(sol, 0), lst_get(sol.cores, 0).buf >= S.mark0))
+            touched = lambda j: z3.Or(j == i, j == i + 1)  # noqa
+        yield 'other-cores-unchanged', FA(0, d, lambda j: z3.Implies(z3.Not(touched(j)), z3.And(
+            lst_get(sol.cores, j).buf == lst_get(sol0.cores, j).buf, zi(lst_get(sol.cores, j).ndim) == zi(lst_get(sol0.cores, j).ndim),
+            *[a == b for a, b in zip(lst_get(sol.cores, j).shape, lst_get(sol0.cores, j).shape)])))
+
+    def canary(self, S, res):
+        return lst_get(S.a['solution'].ranks, zi(S.o['i'])) == lst_get(S.o['solution'].ranks, zi(S.o['i'])) + 1
+
+    def effect(self, ex, state, A, inst, line):
+        sol, i = A['solution'], zi(A['i'])
+        sol.ranks.set(i + 1, fresh('newrank'))
+        mk = lambda: SArr([fresh('c%d' % q) for q in range(4)], fresh('ccx', 'bool'), state.alloc(), True, ndim=fresh('cnd'),  # noqa
+                          flags={f: fresh('c' + f, 'bool') for f in SArr.FLAGS})
+        sol.cores.set(i, mk())
+        if inst['direction'] == 'backward':
+            sol.cores.set(i + 1, mk())
+        return NONE
+
+
+@register
+class Mals(Contract):
+    name, func, file, cls = 'fn:mals', 'mals', FILE, None
+    props = ('C07', 'C06')
+    list_kinds = Als.list_kinds
+
+    def instances(self):
+        return [{'solver': 'solve'}, {'solver': 'lu'}]
+
+    def defaults(self):
+        return {'repeats': 1, 'solver': 'solve', 'threshold': SNum('thr', nonzero=z3.BoolVal(True), nonneg=z3.BoolVal(True)), 'max_rank': INF}
+
+    def call_inst(self, A):
+        return {'solver': A.get('solver', 'solve')}
+
+    def setup(self, ex, state, inst):
+        p = Als.setup(self, ex, state, inst)
+        cap = SMaxRank('max_rank')
+        state.assume(z3.Or(cap.is_inf, cap.val >= 1))
+        p.update({'threshold': SNum('threshold', nonneg=z3.BoolVal(True)), 'max_rank': cap})
+        return p
+
+    def requires(self, S):
+        yield from Als.requires(self, S)
+        # two-site scheme (for order 1 both sweeps are empty and the guess is returned)
+        yield 'order>=2', zi(S.a['operator'].order) >= 2
+
+    def ensures(self, S, res):
+        g0, rhs0 = S.o['initial_guess'], S.o['right_hand_side']
+        d = zi(g0.order)
+        yield 'returns-TT', isinstance(res, STT)
+        if not isinstance(res, STT):
+            return
+        yield 'wf(result)', wf(res)
+        yield 'result-object-and-lists-fresh', meta_fresh(res, S.mark0)
+        yield 'result-buffers-fresh', cores_fresh(res, S.mark0)
+        yield 'order', zi(res.order) == d
+        yield 'dims==dims(rhs)', z3.And(same_ints(res.row_dims, rhs0.row_dims, d), same_ints(res.col_dims, rhs0.col_dims, d))
+        yield 'interior-ranks<=max_rank-after-a-sweep', z3.Implies(zi(S.o['repeats']) >= 1, FA(1, d, lambda j: cap_ok(lst_get(res.ranks, j), S.o['max_rank'])))
+        yield 'boundary-ranks', z3.And(lst_get(res.ranks, 0) == 1, lst_get(res.ranks, d) == 1)
+
+    def canary(self, S, res):
+        return lst_get(res.ranks, 0) == 2 if isinstance(res, STT) else None
+
+    def common(self, V):
+        sol, op, g0 = V['solution'], V.old('operator'), V.old('initial_guess')
+        d = zi(op.order)
+        yield 'solution-identity', z3.And(meta_fresh(sol, V.mark0), lists_distinct(sol), zi(sol.order) == d, zi(sol.cores.length) == d,
+                                          zi(sol.ranks.length) == d + 1, zi(sol.row_dims.length) == d, zi(sol.col_dims.length) == d)
+        yield 'solution-dims', z3.And(same_ints(sol.row_dims, g0.row_dims, d), FA(0, d, lambda j: lst_get(sol.col_dims, j) == 1))
+        yield 'ranks>=1', FA(0, d + 1, lambda j: lst_get(sol.ranks, j) >= 1)
+        yield 'boundary', z3.And(lst_get(sol.ranks, 0) == 1, lst_get(sol.ranks, d) == 1)
+        for nm in ('stack_left_op', 'stack_right_op', 'stack_left_rhs', 'stack_right_rhs'):
+            yield 'len(%s)' % nm, z3.And(zi(V[nm].length) == d, V[nm].ref >= V.mark0)
+
+    def invariant(self, key, inst):
+        me = self
+
+        def fresh_ok(V, sol, d, which):
+            return FA(0, d, lambda j: z3.Implies(which(j), lst_get(sol.cores, j).buf >= V.mark0))
+
+        def inv_init(V, i, k):       # right stacks for i = d-1 .. 1
+            sol, op, rhs = V['solution'], V.old('operator'), V.old('right_hand_side')
+            d = zi(op.order)
+            yield from me.common(V)
+            yield 'wf(solution)', wf(sol)
+            yield 'buffers-fresh', fresh_ok(V, sol, d, lambda j: z3.BoolVal(True))
+            yield 'right-stacks', FA(0, d, lambda j: z3.Implies(j > i, z3.And(Rop(V['stack_right_op'], op, sol, j), Rrhs(V['stack_right_rhs'], rhs, sol, j))))
+
+        def inv_while(V, i, k):
+            sol, op, rhs = V['solution'], V.old('operator'), V.old('right_hand_side')
+            d = zi(op.order)
+            it = zi(V['current_iteration'])
+            yield from me.common(V)
+            yield 'wf(solution)', wf(sol)
+            yield 'buffers-fresh', fresh_ok(V, sol, d, lambda j: z3.BoolVal(True))
+            yield 'right-stacks', FA(0, d, lambda j: z3.Implies(j >= 1, z3.And(Rop(V['stack_right_op'], op, sol, j), Rrhs(V['stack_right_rhs'], rhs, sol, j))))
+            yield 'iteration>=1', it >= 1
+            yield 'caps-after-first-sweep', z3.Implies(it >= 2, FA(1, d, lambda j: cap_ok(lst_get(sol.ranks, j), V.old('max_rank'))))
+
+        def inv_fwd(V, i, k):
+            # dirty core: i (its leading rank may be stale after the previous two-site step), except at the start
+            sol, op, rhs = V['solution'], V.old('operator'), V.old('right_hand_side')
+            d = zi(op.order)
+            yield from me.common(V)
+            yield 'cores', FA(0, d, lambda j: z3.Implies(z3.Or(j != i, i == 0), sol_core_ok(sol, j)))
+            yield 'buffers-fresh', fresh_ok(V, sol, d, lambda j: z3.Or(j != i, i == 0))
+            yield 'left-stacks', FA(0, d, lambda j: z3.Implies(j < i, z3.And(Lop(V['stack_left_op'], op, sol, j), Lrhs(V['stack_left_rhs'], rhs, sol, j))))
+            yield 'right-stacks', FA(0, d, lambda j: z3.Implies(z3.And(j >= 1, j > i), z3.And(Rop(V['stack_right_op'], op, sol, j), Rrhs(V['stack_right_rhs'], rhs, sol, j))))
+
+        def inv_bwd(V, i, k):
+            # after the step at i+1 slot i+1 holds the raw micro solution; before the first step core d-2 (or d-1) may be stale
+            sol, op, rhs = V['solution'], V.old('operator'), V.old('right_hand_side')
+            d = zi(op.order)
+            bad = lambda j: z3.If(i == d - 2, z3.And(j == d - 2, d > 2), j == i + 1)  # noqa
+            yield from me.common(V)
+            yield 'cores', FA(0, d, lambda j: z3.Implies(z3.Not(bad(j)), sol_core_ok(sol, j)))
+            yield 'buffers-fresh', fresh_ok(V, sol, d, lambda j: z3.Not(bad(j)))
+            yield 'left-stacks', FA(0, d, lambda j: z3.Implies(j <= i, z3.And(Lop(V['stack_left_op'], op, sol, j), Lrhs(V['stack_left_rhs'], rhs, sol, j))))
+            yield 'right-stacks', FA(0, d, lambda j: z3.Implies(j > i + 1, z3.And(Rop(V['stack_right_op'], op, sol, j), Rrhs(V['stack_right_rhs'], rhs, sol, j))))
+            yield 'caps', FA(1, d, lambda j: z3.Implies(j > i + 1, cap_ok(lst_get(sol.ranks, j), V.old('max_rank'))))
+        table = {'i in range(operator.order - 1, 0, -1)': inv_init, 'while current_iteration <= repeats': inv_while,
+                 'i in range(operator.order - 1)': inv_fwd, 'i in range(operator.order - 2, -1, -1)': inv_bwd}
+        return table.get(key)
+
+    loop_ordinals = {0: 'i in range(operator.order - 1, 0, -1)', 1: 'while current_iteration <= repeats', 2: 'i in range(operator.order - 1)',
+                     3: 'i in range(operator.order - 2, -1, -1)'}
+
+    def effect(self, ex, state, A, inst, line):
+        from vt.e1.contract import mk_fresh_tt
+        return mk_fresh_tt(state, 'mals_result')
